@@ -27,7 +27,7 @@ CAPS = ("and who already tests with unusual and algebraically structured inputs,
         "of a history, sources whose error type is zero-sized, generators embedded with serde(flatten) / tagged / untagged enums, "
         "twins at the same buffer index in different blocks, every probe of test_timer stuck or backward, newly added Default impls, "
         "timer readings equal to the previous output, real threads racing through the seeding code, operations that hang or kill "
-        "the process, histories whose snapshots are restored twice ")
+        "the process, histories whose snapshots are restored twice, timer readings pinned to special VALUES (all ones, sign boundaries, powers of two), hundreds of backward probes in one timer test, operations executed from a thread-local destructor while their thread exits, the != operator next to == ")
 for f in sorted(glob.glob(f"/tmp/seed/C??-{prev}.full.txt")):
     pid = os.path.basename(f)[:3]
     s = open(f).read().replace(f"{pid}-{prev}", f"{pid}-{new}")
